@@ -1221,7 +1221,7 @@ def real_files(ctx):
         for i, (o, l) in enumerate(zip(objs, lines)):
             why = check_line(l + b"\n", False, o, ext)
             if why:
-                ctx.violation("real binary file: %s" % why, dict(case, only=i))
+                report_unfaithful(ctx, "real binary file: %s" % why, msgs[i], ext, dict(case, only=i))
         acc = b""
         for i, s in enumerate(seen):
             acc += lines[i] + b"\n"
